@@ -18,7 +18,7 @@ Fixpoint match_args (e : env) (args : list term) (tup : tuple) : option env :=
       match a with
       | TVar x => match lookup e x with
                   | Some w => if Z.eqb w v then match_args e args' tup' else None
-                  | None => match_args ((x, v) :: e) args' tup'
+                  | None => match_args (bind x v e) args' tup'
                   end
       | _ => match eval_term I e a with
              | Some w => if Z.eqb w v then match_args e args' tup' else None
@@ -51,7 +51,7 @@ Definition agg_input (bound : list var) (args : list aarg) (tup : tuple) : list 
   filter_map (fun x => agg_col x args tup) bound.
 
 Definition bind_out (out : option var) (v : Z) (e : env) : env :=
-  match out with Some x => (x, v) :: e | None => e end.
+  match out with Some x => bind x v e | None => e end.
 
 (* all environments satisfying a body, given the relation contents *)
 Fixpoint all_envs (db : rel -> list tuple) (items : list bitem) (e : env) : list env :=
@@ -64,7 +64,7 @@ Fixpoint all_envs (db : rel -> list tuple) (items : list bitem) (e : env) : list
   | BCond c :: rest => match sat_cond I e c with Some e' => all_envs db rest e' | None => [] end
   | BGen x g xs :: rest =>
       match eval_vars e xs with
-      | Some vs => flat_map (fun v => all_envs db rest ((x, v) :: e)) (gint I g vs)
+      | Some vs => flat_map (fun v => all_envs db rest (bind x v e)) (gint I g vs)
       | None => [] end
   | BAgg out a bound r args :: rest =>
       let matching := dedup_tuples (filter (agg_match e args) (db r)) in
